@@ -8,7 +8,8 @@
    quantified over `kf` hold for both.  Theorems named *_refuted / code_* are the proved
    counterparts of the defects replayed on the real application by harness/c15. *)
 From Coq Require Import ZArith List Bool.
-From FxV Require Import lib.Dec model.M_Gov proofs.P_Gov proofs.P_Gov2 proofs.P_Gov3.
+From FxV Require Import lib.Dec model.M_Gov model.M_GovShape gen.Gen_GovShape
+  proofs.P_Gov proofs.P_Gov2 proofs.P_Gov3 proofs.P_Gov4 proofs.P_Gov5.
 Import ListNotations.
 Open Scope Z_scope.
 
@@ -290,3 +291,181 @@ Theorem C15_share_nonvacuous :
   option_map p_act_req (find_in kf_fixed (h_share ++ [ODeposit 30 1 12 (FXu 100) false]) 1) = Some [(fx, FXu 100000)].
 Proof. exact share_nonvacuous. Qed.
 Print Assumptions C15_share_nonvacuous.
+
+(* ---- the governance Params themselves change in between (grun) ---- *)
+Theorem C15_gconservation_general : forall kf gops P b c ps ev,
+  grun kf (P, init b c) gops = (ps, ev) ->
+  gov_bal (snd ps) + gov_spent (snd ps) = open_sum (props (snd ps)) /\
+  Forall (fun p => p_total p = sum_deps (p_deps p)) (props (snd ps)).
+Proof. exact gconservation_general. Qed.
+Print Assumptions C15_gconservation_general.
+
+Theorem C15_gconservation : forall kf gops P b c ps ev,
+  Forall gop_no_govsend gops -> grun kf (P, init b c) gops = (ps, ev) ->
+  gov_bal (snd ps) = open_sum (props (snd ps)).
+Proof. exact gconservation. Qed.
+Print Assumptions C15_gconservation.
+
+Theorem C15_gend_block_never_fails : forall kf gops P b c ps ev t stk,
+  Forall gop_no_govsend gops -> grun kf (P, init b c) gops = (ps, ev) ->
+  end_block (fst ps) kf t stk (snd ps) <> None.
+Proof. exact gend_block_never_fails. Qed.
+Print Assumptions C15_gend_block_never_fails.
+
+Theorem C15_gpayout_exactly_once : forall kf gops P b c ps evs,
+  grun kf (P, init b c) gops = (ps, evs) ->
+  forall pid,
+    pays pid evs = match find_prop pid (props (snd ps)) with
+                   | None => []
+                   | Some p => if is_open (p_status p) then [] else p_deps p
+                   end.
+Proof. exact gpayout_exactly_once. Qed.
+Print Assumptions C15_gpayout_exactly_once.
+
+Theorem C15_gprops_invariant : forall kf (Q : proposal -> Prop),
+  (forall P p p', Q p -> evolve1 P kf p p' -> Q p') ->
+  (forall P id now pr ms ex, check_msgs ms = true -> Q (new_proposal P id now pr ms ex)) ->
+  forall gops P b c ps ev, grun kf (P, init b c) gops = (ps, ev) -> Forall Q (props (snd ps)).
+Proof. exact gprops_invariant. Qed.
+Print Assumptions C15_gprops_invariant.
+
+Theorem C15_gsingle_type : forall kf gops P b c ps ev,
+  grun kf (P, init b c) gops = (ps, ev) -> Forall (fun p => same_type (p_msgs p)) (props (snd ps)).
+Proof. exact gsingle_type. Qed.
+Print Assumptions C15_gsingle_type.
+
+(* ---- which parameter value applies at which moment ---- *)
+Theorem C15_params_update_touches_nothing : forall kf P s a v P' r ps' ev,
+  gstep kf (P, s) (GSetParams a v P') = (r, ps', ev) ->
+  snd ps' = s /\ ev = [] /\ (fst ps' = P \/ (fst ps' = P' /\ r = ROk /\ a = true /\ v = true)).
+Proof. exact params_update_touches_nothing. Qed.
+Print Assumptions C15_params_update_touches_nothing.
+
+Theorem C15_op_uses_current_params : forall kf P s o r ps' ev,
+  gstep kf (P, s) (GOp o) = (r, ps', ev) ->
+  fst ps' = P /\ step P kf s o = (r, snd ps', ev).
+Proof. exact op_uses_current_params. Qed.
+Print Assumptions C15_op_uses_current_params.
+
+Theorem C15_params_at_submission : forall P kf now s proposer ms amt ex valid bd s',
+  wf s -> submit P kf now s proposer ms amt ex valid bd = (ROk, s') ->
+  initial_ok P ex amt = true /\
+  exists p, find_prop (next_id s) (props s') = Some p /\
+            p_submit p = now /\ p_dep_end p = now + max_deposit_period P /\ p_expedited p = ex.
+Proof. exact params_at_submission. Qed.
+Print Assumptions C15_params_at_submission.
+
+Theorem C15_params_at_activation : forall P kf cust now d a p,
+  p_status p = SDeposit -> p_status (deposited P kf cust now d a p) = SVoting ->
+  let p' := deposited P kf cust now d a p in
+  is_all_gte (coins_of_fx (p_total p')) (egf_min kf cust [(fx, min_for P p)] (p_msgs p)) = true /\
+  p_vend p' = now + period_for P kf cust p /\
+  (lookup (kf_key kf (p_msgs p)) cust = None ->
+   p_vend p' = now + (if p_expedited p then exp_voting_period P else voting_period P)).
+Proof. exact params_at_activation. Qed.
+Print Assumptions C15_params_at_activation.
+
+Theorem C15_params_at_tally : forall P kf cust stk p,
+  let v := tally P kf cust stk p in
+  (lookup (kf_key kf (p_msgs p)) cust = None -> q_used v = quorum P) /\
+  (passes v = true ->
+   (if p_expedited p then exp_threshold P else threshold P)
+     < dec_quo (a_yes (tally_acc stk p)) (a_total (tally_acc stk p) - a_abstain (tally_acc stk p)) /\
+   dec_quo (a_veto (tally_acc stk p)) (a_total (tally_acc stk p)) <= veto_threshold P) /\
+  (burns v = true -> (burn_quorum P = true \/ burn_veto P = true)) /\
+  p_vend (converted P p v) = p_vstart p + voting_period P.
+Proof. exact params_at_tally. Qed.
+Print Assumptions C15_params_at_tally.
+
+Theorem C15_params_at_drop : forall P s id p s' ev,
+  process_inactive P s id = Some (s', ev) -> find_prop id (props s) = Some p -> p_status p = SDeposit ->
+  ev = map (fun da => EvPay (p_id p) (fst da) (if burn_prevote P then 0 else snd da)
+                            (if burn_prevote P then snd da else 0)) (p_deps p).
+Proof. exact params_at_drop. Qed.
+Print Assumptions C15_params_at_drop.
+
+Theorem C15_params_change_nonvacuous :
+  gview (firstn 7 h_params) 1 = Some (SVoting, FXu 10000, 10, 10 + 14 * day, false, 0) /\
+  gview h_params 1 = Some (SPassed, FXu 10000, 10, 10 + 14 * day, false, 100000000000000000) /\
+  gview h_params 2 = Some (SDeposit, FXu 10000, 0, 0, false, 0) /\
+  quorum (fst (fst (grun kf_code (P0, init bal0 cust0) h_params))) = 100000000000000000 /\
+  (100000000000000000 <=? participation stk0 (with_votes (new_proposal P0 1 10 10 [text_msg] false) [(0, yes)])) = true /\
+  (participation stk0 (with_votes (new_proposal P0 1 10 10 [text_msg] false) [(0, yes)]) <? 900000000000000000) = true.
+Proof. exact params_change_nonvacuous. Qed.
+Print Assumptions C15_params_change_nonvacuous.
+
+(* ---- conservation of value: burned deposits leave the supply, refunds do not ---- *)
+Theorem C15_step_value : forall A P kf s o r s' ev,
+  NoDup A -> closed_in A s -> op_in A o -> params_in A P ->
+  step P kf s o = (r, s', ev) ->
+  value A s' = value A s + inflow o r /\ closed_in A s'.
+Proof. exact step_value. Qed.
+Print Assumptions C15_step_value.
+
+Theorem C15_supply_conservation : forall A kf gops P b c ps ev,
+  NoDup A -> params_in A P -> Forall (gop_in A) gops ->
+  grun kf (P, init b c) gops = (ps, ev) ->
+  sumb A (bal (snd ps)) + gov_bal (snd ps) + pool_in (snd ps)
+  = sumb A b + ginflow kf (P, init b c) gops - burned (snd ps).
+Proof. exact supply_conservation. Qed.
+Print Assumptions C15_supply_conservation.
+
+(* ---- the code's shape, read off the current sources by harness/gen_c15 (gen/Gen_GovShape.v) ---- *)
+Theorem C15_gen_exec_all_or_nothing : forall s1 ms,
+  exec_outcome_sh gen_shape s1 ms =
+  match exec_msgs s1 ms with Some s2 => (s2, SPassed) | None => (s1, SFailed) end.
+Proof. exact gen_exec_all_or_nothing. Qed.
+Print Assumptions C15_gen_exec_all_or_nothing.
+
+Theorem C15_gen_deposit_writes_record : forall P kf cust now dep amt p,
+  deposited_sh gen_shape P kf cust now dep amt p = deposited P kf cust now dep amt p.
+Proof. exact gen_deposit_writes_record. Qed.
+Print Assumptions C15_gen_deposit_writes_record.
+
+Theorem C15_gen_endblock_shape :
+  leqb eb_step_eqb (sh_eb_order gen_shape) model_eb_order = true /\
+  sh_payout_guard gen_shape = true /\ sh_conv_period_default gen_shape = true /\
+  sh_passed_in_ok_branch gen_shape = true /\ sh_failed_in_else_branch gen_shape = true.
+Proof. exact gen_endblock_shape. Qed.
+Print Assumptions C15_gen_endblock_shape.
+
+Theorem C15_gen_queue_shape : queue_shape_ok gen_shape = true.
+Proof. exact gen_queue_shape. Qed.
+Print Assumptions C15_gen_queue_shape.
+
+Theorem C15_gen_tally_checks : leqb tally_check_eqb (sh_tally_checks gen_shape) model_tally_checks = true.
+Proof. exact gen_tally_checks. Qed.
+Print Assumptions C15_gen_tally_checks.
+
+Theorem C15_gen_keys_consistent : shape_keys_consistent gen_shape = true.
+Proof. exact gen_keys_consistent. Qed.
+Print Assumptions C15_gen_keys_consistent.
+
+Theorem C15_gen_keyfun : forall ms m,
+  kf_key (kf_of_shape gen_shape) ms = kf_key (if shape_is_fixed gen_shape then kf_fixed else kf_code) ms /\
+  kf_is_egf (kf_of_shape gen_shape) m = kf_is_egf (if shape_is_fixed gen_shape then kf_fixed else kf_code) m.
+Proof. exact gen_keyfun. Qed.
+Print Assumptions C15_gen_keyfun.
+
+Theorem C15_gen_any_key_is_type_blind :
+  sh_type_key gen_shape = KAnyName -> sh_egf_key gen_shape = KAnyName ->
+  forall P cust p q m ms,
+    (p_msgs p = [] <-> p_msgs q = []) -> p_expedited p = p_expedited q ->
+    period_for P (kf_of_shape gen_shape) cust p = period_for P (kf_of_shape gen_shape) cust q /\
+    quorum_for P (kf_of_shape gen_shape) cust p = quorum_for P (kf_of_shape gen_shape) cust q /\
+    egf_min (kf_of_shape gen_shape) cust [(fx, m)] ms = [(fx, m)].
+Proof. exact gen_any_key_is_type_blind. Qed.
+Print Assumptions C15_gen_any_key_is_type_blind.
+
+Theorem C15_shadowed_err_matters :
+  let sh := with_exec gen_shape false 0 0 1 true true in
+  (ext (fst (exec_outcome_sh sh s_any [m_ok; m_bad])), snd (exec_outcome_sh sh s_any [m_ok; m_bad])) = ([7], SPassed) /\
+  (ext (fst (exec_outcome_sh gen_shape s_any [m_ok; m_bad])), snd (exec_outcome_sh gen_shape s_any [m_ok; m_bad])) = ([], SFailed).
+Proof. exact shadowed_err_matters. Qed.
+Print Assumptions C15_shadowed_err_matters.
+
+Theorem C15_per_message_branch_matters :
+  let sh := with_exec gen_shape true 1 1 0 false false in
+  (ext (fst (exec_outcome_sh sh s_any [m_ok; m_bad])), snd (exec_outcome_sh sh s_any [m_ok; m_bad])) = ([7], SFailed).
+Proof. exact per_message_branch_matters. Qed.
+Print Assumptions C15_per_message_branch_matters.
